@@ -67,6 +67,51 @@ def write_order_cases(ctx):
     return out
 
 
+def interrupted_runs(ctx):
+    """a create that is interrupted by an exception (Ctrl-C, disk full) changes no byte of an existing manifest and keeps
+    every earlier chain entry"""
+    import os, shutil, errno
+    from .. import rt, scenario, crash
+
+    def examine(pre, dst, post, label):
+        probs = []
+        cur = crash.committed_state(dst)
+        for a, st in pre.items():
+            for name, b in st["manifests"].items():
+                if cur.get(a, {"manifests": {}})["manifests"].get(name) != b:
+                    probs.append(f"{label}: existing manifest {a}/{name} changed or vanished")
+            if st["chain"] is not None:
+                c = cur.get(a, {}).get("chain")
+                if not isinstance(c, list):
+                    probs.append(f"{label}: chain file of {a} is {'missing' if c is None else 'not well-formed'}")
+                elif c[: len(st["chain"])] != st["chain"]:
+                    probs.append(f"{label}: earlier chain entries of {a} changed")
+        return probs
+
+    fails = []
+    for nested, exc in ((["s"], KeyboardInterrupt), (["s", "s/t"], OSError(errno.ENOSPC, "No space left on device (injected)"))):
+        base = rt.mktemp("c06i_")
+        try:
+            impl = scenario.Impl({"root": "root", "tree": {"a.txt": "alpha", "s/b.txt": "beta", "s/t/c.txt": "gamma"}}, base)
+            t = 0
+            for d in nested + ["", ""]:
+                t += 1
+                impl.run({"op": "create", "at": d, "h": ["md5"], "now": "2026-03-01 12:00:%02d" % t})
+
+            def make_run(copy_root):
+                im = scenario.Impl.__new__(scenario.Impl)
+                im.sc, im.base, im.root = {"root": "root", "tree": {}}, os.path.dirname(copy_root), copy_root
+                im.iifile, im.flat_n = os.path.join(os.path.dirname(copy_root), "_ii.txt"), 0
+                return lambda: im.run({"op": "create", "at": "", "h": ["sha1"], "now": "2026-03-01 12:30:00"})
+
+            r = crash.enumerate_interrupt_states(impl.root, make_run, examine=examine, exc=exc)
+            for p in r["unrecoverable"]:
+                fails.append({"what": p, "replay": {"case": "interrupted create", "nested": nested, "exception": repr(exc)}})
+        finally:
+            shutil.rmtree(base, ignore_errors=True)
+    return fails
+
+
 def run(ctx):
     scs = _scn.standard_pool(ctx, ctx.scale(50, 900), ctx.scale(30, 400), ctx.scale(4, 40))
     # folder and file names in decomposed unicode form (as copied from macOS volumes), nested
@@ -74,7 +119,7 @@ def run(ctx):
            "ops": [{"op": "create", "at": "e\u0301", "h": ["md5"], "now": "2026-03-01 12:00:00"}, {"op": "create", "at": "", "h": ["md5"], "now": "2026-03-01 12:00:01"},
                    {"op": "create", "at": "", "h": ["c4"], "now": "2026-03-01 12:00:02"}, {"op": "verify", "at": ""}, {"op": "info", "at": ""}]}
     scs.insert(0, nfd)
-    return _scn.run_scn(ctx, scs, M.m_c06, extra_fails=utc_name_cases(), extra_diffs=write_order_cases(ctx), assumptions=["the clock is the injected one (freezegun); several runs share a clock second on purpose"])
+    return _scn.run_scn(ctx, scs, M.m_c06, extra_fails=utc_name_cases() + interrupted_runs(ctx), extra_diffs=write_order_cases(ctx), assumptions=["the clock is the injected one (freezegun); several runs share a clock second on purpose"])
 
 
 def replay(ctx, path):
